@@ -266,6 +266,42 @@ def run(ctx):
         run.inst("C11.B5", "wrap-tests-distance-from-reference", not not_difference,
                  "in every such comparison the point's longitude and the reference enter with opposite signs%s" % ("" if not not_difference else "; not in: %s" % not_difference[:2]),
                  where(facts.fns[NORM]["span"]))
+    # B8: the reference the ring is unwrapped around is the direction of the SUM of the ring points.  What can be
+    # decided from the shape of the code, and is necessary: wherever the function (or a closure of it) builds a
+    # 3-vector from components of two different points (accumulator and ring point), the two horizontal slots - the
+    # ones the reference longitude is read from - ADD the point's contribution.  (A difference mirrors the reference
+    # and splits rings on the far side; mixed-up components, the vertical slot and the rescaling of the sum only move
+    # the reference by less than a quarter turn, which no ring away from the poles notices - measured with the
+    # mutation probe, DESIGN 13.15 - so they are not required here.)  A centre computed some other way is not judged.
+    if NORM in facts.fns:
+        from .wrap_common import _component
+        acc, bad8 = 0, []
+        for p_, f_ in sorted(facts.fns.items()):
+            if not p_.startswith(NORM) or f_["kind"] not in ("Fn", "Closure"):
+                continue
+            fx = fn_terms(facts, p_)
+            seen8 = set()
+            for c in fx.calls():
+                if not (isinstance(c.callee, str) and c.callee.endswith("::new") and len(c.args) == 3):
+                    continue
+                k8 = tuple(strip_site(a) for a in c.args)
+                if k8 in seen8:
+                    continue
+                seen8.add(k8)
+                args = [peel(a) for a in c.args]
+                if not all(a[0] == "bin" and a[1] in ("Add", "Sub") for a in args):
+                    continue
+                pairs = [(_component(a[2]), _component(a[3])) for a in args]
+                if all(x is not None and y is not None and x[1] != y[1] for x, y in pairs):
+                    acc += 1
+                    for slot in (0, 1):
+                        if args[slot][1] != "Add":
+                            bad8.append("slot %s = %s" % ("xyz"[slot], fmt(args[slot])[:50]))
+        if acc == 0:
+            run.note("C11.B8 not evaluated: no component-wise combination of two points found in normalize_longitudes (the centre is computed some other way)")
+        run.inst("C11.B8", "centre-accumulates-sum", not bad8,
+                 "%d accumulation(s) of a 3-vector from two points; the horizontal slots add the point's contribution%s" % (
+                     acc, "" if not bad8 else "; not so: %s" % bad8[:2]), where(facts.fns[NORM]["span"]), nontrivial=acc > 0)
     # B6: the ring is split from the shape's exact vertex list, not from the padded fixed-size accessor
     GV = "a5::geometry::pentagon::PentagonShape::get_vertices"
     for user in (SPLIT, C2B):
